@@ -3,7 +3,7 @@ from ..paths import explore, describe, pretty_place
 from ..rules import calls_to, calls_where, order_ok, blocks_of, self_field_of_call
 from ..facts import callee_path, is_place, op_local, trace, operand_place
 
-TEXT = ("Coverage rules over the containers that can hold an effect: Renderer::on_change_sample_rate updates dt, the shared rate and the mixer; every field of a struct with on_change_sample_rate that a constructor initialises from the sample rate is recomputed there from the new rate on every path; every effect-holding struct fans each of its rate/initialisation/per-callback methods out to every effect-holding field; every Effect impl whose init depends on the sample rate overrides on_change_sample_rate with the same dependent state; every track-creation site initialises effects with a load of RendererShared.sample_rate before the insert; tracks in flight in the new-resource ring during a rate change must still be told the rate in force. Pitch/duration equalities across rates are value-level and not decided. The new rate is published to the shared state before the mixer fan-out; a pure function of dt kept in a field by process() is refreshed on every pass or reset by on_change_sample_rate. RendererShared is created once, by AudioManager::new; each parameter is updated exactly once per pass. A min / max / clamp / comparison in which the time step takes part is a limit that moves with the device rate: the two that exist (the filters' Nyquist clamps) are listed with their reason, any other is reported. Where on_change_sample_rate replaces a rate-sized buffer, every cursor kept into it is reset too; elapsed time is accumulated in double precision whatever the rate. Only the effects that need rate-sized buffers keep rate-dependent state; an effect is handed the slice of this chunk. The creation site of every track reaches init_effects on every path. The per-frame step handed to a child's process is the caller's own dt (11 sites); a field whose items are themselves effect holders (sub-tracks) is served by the holder's own method, to any depth.")
+TEXT = ("Coverage rules over the containers that can hold an effect: Renderer::on_change_sample_rate updates dt, the shared rate and the mixer; every field of a struct with on_change_sample_rate that a constructor initialises from the sample rate is recomputed there from the new rate on every path; every effect-holding struct fans each of its rate/initialisation/per-callback methods out to every effect-holding field; every Effect impl whose init depends on the sample rate overrides on_change_sample_rate with the same dependent state; every track-creation site initialises effects with a load of RendererShared.sample_rate before the insert; tracks in flight in the new-resource ring during a rate change must still be told the rate in force. Pitch/duration equalities across rates are value-level and not decided. The new rate is published to the shared state before the mixer fan-out; a pure function of dt kept in a field by process() is refreshed on every pass or reset by on_change_sample_rate. RendererShared is created once, by AudioManager::new; each parameter is updated exactly once per pass. A min / max / clamp / comparison in which the time step takes part is a limit that moves with the device rate: the two that exist (the filters' Nyquist clamps) are listed with their reason, any other is reported. Where on_change_sample_rate replaces a rate-sized buffer, every cursor kept into it is reset too; elapsed time is accumulated in double precision whatever the rate. Only the effects that need rate-sized buffers keep rate-dependent state; an effect is handed the slice of this chunk. The creation site of every track reaches init_effects on every path. The per-frame step handed to a child's process is the caller's own dt (11 sites); a field whose items are themselves effect holders (sub-tracks) is served by the holder's own method, to any depth. What init and on_change_sample_rate store from the sample rate into one field is the same expression.")
 TECHNIQUE = 'MIR field-coverage, sibling-method agreement and ordering rules'
 
 FANOUT = ('on_change_sample_rate', 'on_start_processing', 'init_effects', 'init')
